@@ -27,18 +27,18 @@ PROPS = {
    assumptions=["crypto.Hash instances are functions of the bytes written to them (H is an arbitrary function in the theorems)",
                 "n <= 2^63 (Go int)"],
    trusted_base=["Lean SHA-256/SHA-512/BLAKE2b-256 oracles in the driver (validated against the Go standard library by this very run)"]),
- "C04": P("C04", e2e="Iota.Tie.E2E.Bech32", tie="Iota.Tie.Bech32",
+ "C04": P("C04", e2e=["Iota.Tie.E2E.Bech32", "Iota.Tie.E2E.Bech32Api"], tie="Iota.Tie.Bech32",
    rule="ops: bech32.dec. For every symbol count 0..84: random 5-bit symbol sequences with a CORRECT checksum in all 32 values of the last symbol (all padding patterns, every length residue mod 8); "
         "valid encodings mutated by case changes, charset/arbitrary substitutions, insertions, deletions, truncations, separator games, over-long strings, random bytes; "
         "bytes >= 0x80, invalid UTF-8 and the Unicode characters whose Go case mapping lands in ASCII (U+212A, U+0130, U+017F, ...) at every position of sample strings",
    assumptions=["strings.ToLower/ToUpper map ASCII strings by ASCII case mapping and strings.LastIndex(s, \"1\") is the last occurrence of the byte (structure Externs, the only hypotheses of code_decode; nothing assumed on non-ASCII strings)", "len(s) < 2^63"],
    trusted_base=["Go strings.ToLower/ToUpper/LastIndex: parameters of the translated Decode, assumed as stated, not verified"]),
- "C05": P("C05", e2e="Iota.Tie.E2E.Bech32", tie="Iota.Tie.Bech32",
+ "C05": P("C05", e2e=["Iota.Tie.E2E.Bech32", "Iota.Tie.E2E.Bech32Api"], tie="Iota.Tie.Bech32",
    rule="ops: bech32.enc. All data lengths 0..52 x hrp lengths {0,1,2, limit-1, limit, limit+1, limit+2, 83, 84} (both sides of the 90-character rule), boundary byte fills for every length residue mod 5, "
         "invalid prefixes (empty, mixed case, non-printable, non-ASCII, containing '1'), random single-case prefixes of length 1..84 with random data 0..51 bytes",
    assumptions=["strings.ToLower/ToUpper map ASCII strings by ASCII case mapping (structure Externs)", "len(hrp) < 2^62, len(src) < 2^60 (beyond: EncodedLen wraps and make panics, encode_panics_at_2_60)"],
    trusted_base=["Go strings.ToLower/ToUpper: parameters of the translated Encode, assumed as stated, not verified"]),
- "C16": P("C16", e2e="Iota.Tie.E2E.Bech32", tie="Iota.Tie.Bech32",
+ "C16": P("C16", e2e=["Iota.Tie.E2E.Bech32", "Iota.Tie.E2E.Bech32Api"], tie="Iota.Tie.Bech32",
    rule="ops: bech32.dec on corrupted code words. Per sampled valid string (incl. longest ones, window 89): ALL weight-1 substitutions of the data part, all position pairs of weight 2 "
         "(sampled symbols; 12 symbol pairs per position pair for 4 strings at thorough), sampled weight 3-4 incl. same-kind substitutions in the human-readable part",
    assumptions=["same as C04"],
